@@ -287,7 +287,8 @@ theorem augment_step {n : Nat} {c : Fin n → Fin n → ℤ} {s t : Fin n} (hst 
     (path : List Nat) (hpath : pathIter sr.parents (g.numNodes + 1) t.val = some path)
     (m : Nat × Nat) (km pf : ℤ) (hmin : minByCap g (windows path) = some (m, km))
     (hpf : windowCap g m = some pf) (hpos : ¬ pf ≤ 0) (g' : Graph)
-    (hpush : pushPath g pf (windows path) = some g') : FInv c s t g' (flow + pf) := by
+    (hpush : pushPath g pf (windows path) = some g') :
+    FInv c s t g' (flow + pf) ∧ g'.first = g.first ∧ g'.tgt = g.tgt := by
   obtain ⟨rank, hr⟩ := hsf.tree
   have hNg : g.numNodes ≤ INV := by rw [hi.hn]; exact hN
   obtain ⟨tail, e1, _, hnd, hlast, hlt, hwin⟩ :=
@@ -295,7 +296,7 @@ theorem augment_step {n : Nat} {c : Fin n → Fin n → ℤ} {s t : Fin n} (hst 
   obtain ⟨_, hm2, hm3⟩ := minByCap_spec g _ m km hmin
   have hkm : km = pf := by rw [hm2] at hpf; exact Option.some.inj hpf
   rw [hkm] at hm2 hm3
-  refine (push_finv hst g flow hi path tail e1 hnd hlast hlt pf (by omega) ?_ g' hpush).1
+  refine push_finv hst g flow hi path tail e1 hnd hlast hlt pf (by omega) ?_ g' hpush
   intro ab hab
   obtain ⟨k, hk1, hk2⟩ := hm3 ab hab
   unfold windowCap at hk1
@@ -351,7 +352,7 @@ theorem augmentLoop_spec {n : Nat} {c : Fin n → Fin n → ℤ} {s t : Fin n} (
                 | none => simp [hpush] at h
                 | some g1 =>
                   simp only [hpush] at h
-                  have hi1 := augment_step hst hN g flow hi sr hsf path hpath m km pf hmin hpf hpos g1 hpush
+                  have hi1 := (augment_step hst hN g flow hi sr hsf path hpath m km pf hmin hpf hpos g1 hpush).1
                   exact ih g1 (flow + pf) (augs + 1) g' flow' augs' hi1 h
 
 /-- a state satisfying the invariant in which the target is unreachable carries the maximum flow -/
